@@ -45,9 +45,11 @@ type Case struct {
 // only when it is read after the later one has been built.
 //   Order 0: rec(A) sum(A) rec(B) sum(B) ...   1: rec(A) rec(B) ... sum(A) sum(B) ...   2: sum(A) rec(A) sum(B) rec(B) ...
 type Batch struct {
-	ID    int64  `json:"id"`
-	Order int    `json:"order"`
-	Ops   []Case `json:"ops"`
+	ID     int64  `json:"id"`
+	Order  int    `json:"order"`
+	IdleMs int    `json:"idle_ms,omitempty"` // after the last record keep listening this long: nothing else may arrive
+	Stress int    `json:"stress,omitempty"`  // two goroutines build the messages of the first two records this many times concurrently
+	Ops    []Case `json:"ops"`
 }
 
 // ---------- value pools ----------
@@ -268,7 +270,11 @@ func corpus(tier string) []Case {
 	for i, n := range longs {
 		c := base
 		c.Data = nil
-		c.Ramp = []int64{int64(1000 * i), 257, n}
+		step := int64(257)
+		if tier != "thorough" && n > 60000 {
+			step = 256 // quick tier: a payload of period 512 bytes, which frameList writes down compactly
+		}
+		c.Ramp = []int64{int64(1000 * i), step, n}
 		c.Pre = n / 4
 		c.Signed = i%2 == 1
 		out = append(out, c)
@@ -325,7 +331,7 @@ func e2eSlice() []Case {
 
 func gen(seed uint64, tier string) []interface{} {
 	r := lib.NewRng(seed)
-	n := 320
+	n := 260
 	if tier == "thorough" {
 		n = 6000
 	}
@@ -360,7 +366,7 @@ func gen(seed uint64, tier string) []interface{} {
 	recs = append(recs, e2eSlice()...)
 	// group consecutive records into batches of 2..4 (now and then 1); a long record is always followed by
 	// at least one more record in its batch
-	var out []interface{}
+	var batches []Batch
 	id := int64(1)
 	br := lib.NewRng(seed ^ 0xb47c)
 	for i := 0; i < len(recs); {
@@ -374,6 +380,39 @@ func gen(seed uint64, tier string) []interface{} {
 		b := Batch{ID: id, Order: br.Intn(3), Ops: append([]Case(nil), recs[i:i+k]...)}
 		id++
 		i += k
+		batches = append(batches, b)
+	}
+	// idle watch: after the last record of one all-end-to-end batch (thorough: three) the SUB sockets stay open
+	// for 3.5 s; nothing but messages of published records may ever arrive on the port
+	want := 1
+	if tier == "thorough" {
+		want = 3
+	}
+	for i := len(batches) - 1; i >= 0 && want > 0; i-- {
+		all := len(batches[i].Ops) >= 2
+		for _, c := range batches[i].Ops {
+			all = all && c.E2E
+		}
+		if all {
+			batches[i].IdleMs = 3500
+			want--
+			i -= 4
+		}
+	}
+	// concurrent-encode stress in one batch (thorough: five): the two publisher goroutines encode at the same time
+	// in production, so a message must also be right when it is built while the other encoder runs
+	want = 1
+	if tier == "thorough" {
+		want = 5
+	}
+	for i := 0; i < len(batches) && want > 0; i += 7 {
+		if len(batches[i].Ops) >= 2 && len(batches[i].Ops[0].Ramp) == 0 && len(batches[i].Ops[1].Ramp) == 0 {
+			batches[i].Stress = 20000
+			want--
+		}
+	}
+	var out []interface{}
+	for _, b := range batches {
 		out = append(out, b)
 	}
 	return out
@@ -422,6 +461,18 @@ func newSub(port int, prefixes []string) (*zmq4.Socket, error) {
 		return nil, err
 	}
 	return sock, nil
+}
+
+func equalFrames(a, b [][]byte) bool {
+	if len(a) != len(b) {
+		return false
+	}
+	for i := range a {
+		if string(a[i]) != string(b[i]) {
+			return false
+		}
+	}
+	return true
 }
 
 func probe(k int) dastard.VerifRecord {
@@ -520,7 +571,7 @@ func getSession() *session {
 	s.pub[1].Send(probe(last))
 	for i, so := range socks {
 		want := direct(probe(last), which[i])
-		so.SetRcvtimeo(5 * time.Second)
+		so.SetRcvtimeo(recvTimeout)
 		for n := 0; ; n++ {
 			m, err := so.RecvMessageBytes(0)
 			if err != nil || n > 1000 {
@@ -537,33 +588,78 @@ func getSession() *session {
 	return s
 }
 
-// roundtrip publishes v on both sockets and returns the frames received (through the prefix-filtered
-// subscribers when v's channel is one of subChans, else through the unfiltered ones).
-func (s *session) roundtrip(v dastard.VerifRecord) (msgs [2][][]byte, filtered bool, ok bool) {
-	for _, ch := range subChans {
-		if int64(v.Chan) == ch {
-			filtered = true
+const recvTimeout = 8 * time.Second
+
+func subscribed(ch int) bool {
+	for _, c := range subChans {
+		if int64(ch) == c {
+			return true
 		}
 	}
-	// both publisher goroutines get the record before anything is received, as in production
-	s.pub[0].Send(v)
-	s.pub[1].Send(v)
+	return false
+}
+
+// roundtripBatch hands ALL the records to each publisher goroutine in ONE channel send (what PublishData does:
+// dp.PubRecordsChan <- records) and then reads, for every record in order, exactly one message from the
+// unfiltered SUB socket and - for a record on one of subChans - one from the prefix-subscribed SUB socket.
+// What a record is judged on is the message as received (any number of frames).  When the two sockets disagree
+// about a record's message, both are reported together (more than two frames: rejected).  A message that does
+// not arrive within recvTimeout is reported as the empty message for that record and for the records after it,
+// and the session is not used again: from here on a missing message is an observation, not a transport excuse.
+func (s *session) roundtripBatch(vs []dastard.VerifRecord) (msgs [][2][][]byte, complete bool) {
+	msgs = make([][2][][]byte, len(vs))
+	s.pub[0].SendBatch(vs)
+	s.pub[1].SendBatch(vs)
 	for w := 0; w < 2; w++ {
-		m, err := s.all[w].RecvMessageBytes(0)
-		if err != nil {
-			s.ok = false
-			return msgs, filtered, false
-		}
-		if filtered {
-			m, err = s.filt[w].RecvMessageBytes(0)
+		for i := range vs {
+			m, err := s.all[w].RecvMessageBytes(0)
 			if err != nil {
 				s.ok = false
-				return msgs, filtered, false
+				return msgs, false
+			}
+			msgs[i][w] = m
+		}
+	}
+	for w := 0; w < 2; w++ {
+		for i, v := range vs {
+			if !subscribed(v.Chan) {
+				continue
+			}
+			m, err := s.filt[w].RecvMessageBytes(0)
+			if err != nil {
+				s.ok = false
+				msgs[i][w] = [][]byte{}
+				return msgs, false
+			}
+			same := len(m) == len(msgs[i][w])
+			for k := 0; same && k < len(m); k++ {
+				same = string(m[k]) == string(msgs[i][w][k])
+			}
+			if !same {
+				msgs[i][w] = append(append([][]byte{}, msgs[i][w]...), m...)
 			}
 		}
-		msgs[w] = m
 	}
-	return msgs, filtered, true
+	return msgs, true
+}
+
+// listen keeps both unfiltered SUB sockets open for d and returns every message that arrives.
+func (s *session) listen(d time.Duration) (stray [][][]byte) {
+	deadline := time.Now().Add(d)
+	for w := 0; w < 2; w++ {
+		s.all[w].SetRcvtimeo(50 * time.Millisecond)
+	}
+	for time.Now().Before(deadline) {
+		for w := 0; w < 2; w++ {
+			if m, err := s.all[w].RecvMessageBytes(0); err == nil {
+				stray = append(stray, m)
+			}
+		}
+	}
+	for w := 0; w < 2; w++ {
+		s.all[w].SetRcvtimeo(recvTimeout)
+	}
+	return stray
 }
 
 // frameList renders frames as a Coq list of byte lists.  Coq spends ~40 us per decimal digit on numerals and its
@@ -579,26 +675,35 @@ func frameList(fr [][]byte) string {
 			items[i] = lib.ZListBytes(f)
 			continue
 		}
+		// consecutive identical chunks are written once: (catr [rep k [chunk]; ...]) - lossless, any chunk that
+		// differs from its neighbour is written out
 		var sb strings.Builder
-		sb.WriteString("(cat [")
-		for a := 0; a < len(f); a += chunk {
+		sb.WriteString("(catr [")
+		first := true
+		for a := 0; a < len(f); {
 			b := a + chunk
 			if b > len(f) {
 				b = len(f)
 			}
-			if a > 0 {
+			k := 1
+			for b-a == chunk && a+(k+1)*chunk <= len(f) && string(f[a+k*chunk:a+(k+1)*chunk]) == string(f[a:b]) {
+				k++
+			}
+			if !first {
 				sb.WriteString(";\n ")
 			}
-			sb.WriteByte('[')
-			for k := a; k < b; k++ {
-				if k > a {
+			first = false
+			fmt.Fprintf(&sb, "rep %d [", k)
+			for x := a; x < b; x++ {
+				if x > a {
 					sb.WriteByte(';')
 				}
 				sb.WriteByte('b')
-				sb.WriteByte(hexdigits[f[k]>>4])
-				sb.WriteByte(hexdigits[f[k]&15])
+				sb.WriteByte(hexdigits[f[x]>>4])
+				sb.WriteByte(hexdigits[f[x]&15])
 			}
 			sb.WriteByte(']')
+			a += k * (b - a)
 		}
 		sb.WriteString("])")
 		items[i] = sb.String()
@@ -715,9 +820,9 @@ func runBatch(b Batch) lib.Result {
 		hs = append(hs, hashed{c.Chan, c.Signed, c.Pre, c.Data, c.Ramp, c.Period, c.Vpa, c.Time, c.Frame, c.Vals, c.Coefs, c.E2E})
 	}
 	res.Hash = lib.Hash(struct {
-		O int
-		H []hashed
-	}{b.Order, hs})
+		O, I int
+		H    []hashed
+	}{b.Order, b.IdleMs + b.Stress, hs})
 
 	// phase 1: build every message of the batch; the returned frames are kept as they are (not copied)
 	panicMsg := ""
@@ -747,20 +852,87 @@ func runBatch(b Batch) lib.Result {
 			}
 		}
 	}()
-	// phase 1b (thorough tier): the flagged records also travel through the real PUB sockets; what the SUB
-	// sockets received replaces the directly built frames of that record
+	// phase 1a (stress batches): goroutine A builds the record and summary message of the first record over and
+	// over while goroutine B does the same for the second record (in production the two publisher goroutines
+	// encode concurrently).  Every message built is compared with the one built alone in phase 1; the first one
+	// that differs becomes the observation for its record.  On a race-free encoder nothing ever differs, so the
+	// outcome on the unchanged tree does not depend on scheduling.
+	stressed := false
+	if b.Stress > 0 && len(ps) >= 2 && panicMsg == "" {
+		stressed = true
+		done := make(chan struct{}, 2)
+		for g := 0; g < 2; g++ {
+			go func(p *prepared) {
+				defer func() { recover(); done <- struct{}{} }()
+				refR, refS := copyFrames(p.recmsg), copyFrames(p.summsg)
+				var badR, badS [][]byte
+				for it := 0; it < b.Stress && (badR == nil || badS == nil); it++ {
+					if m := dastard.VerifMessageRecord(p.v); badR == nil && !equalFrames(m, refR) {
+						badR = copyFrames(m)
+					}
+					if m := dastard.VerifMessageSummary(p.v); badS == nil && !equalFrames(m, refS) {
+						badS = copyFrames(m)
+					}
+				}
+				if badR != nil {
+					p.recmsg = badR
+				}
+				if badS != nil {
+					p.summsg = badS
+				}
+			}(ps[g])
+		}
+		<-done
+		<-done
+	}
+
+	// phase 1b: the flagged records of the batch also travel through the real PUB sockets, all of them in ONE
+	// channel send per publisher; what the SUB sockets received replaces the directly built frames of that
+	// record.  Only a transport that cannot be set up at all falls back to the direct call.
+	var stray [][][]byte
+	var e2e []*prepared
+	var e2eExtra []string
 	for _, p := range ps {
-		if p.c.E2E && panicMsg == "" {
-			if s := getSession(); s == nil || !s.ok {
-				p.e2eTag = "e2e-unavailable(direct call used)"
-			} else if msgs, filtered, ok := s.roundtrip(p.v); !ok {
-				p.e2eTag = "e2e-receive-timeout(direct call used)"
-			} else {
-				p.recmsg, p.summsg = msgs[0], msgs[1]
+		if p.c.E2E {
+			e2e = append(e2e, p)
+		}
+	}
+	if len(e2e) > 0 && panicMsg == "" {
+		if s := getSession(); s == nil || !s.ok {
+			tag := "e2e-unavailable(direct call used)"
+			if s != nil {
+				tag = "e2e-session-closed-after-a-missing-message(direct call used)"
+			}
+			for _, p := range e2e {
+				p.e2eTag = tag
+			}
+		} else {
+			vs := make([]dastard.VerifRecord, len(e2e))
+			for i, p := range e2e {
+				vs[i] = p.v
+			}
+			msgs, complete := s.roundtripBatch(vs)
+			for i, p := range e2e {
+				p.recmsg, p.summsg = msgs[i][0], msgs[i][1]
+				if p.recmsg == nil {
+					p.recmsg = [][]byte{}
+				}
+				if p.summsg == nil {
+					p.summsg = [][]byte{}
+				}
 				p.e2eTag = "e2e-received-by-unfiltered-SUB"
-				if filtered {
+				if subscribed(p.v.Chan) {
 					p.e2eTag = "e2e-received-by-prefix-subscribed-SUB"
 				}
+			}
+			if len(e2e) > 1 {
+				e2eExtra = append(e2eExtra, "e2e-2..4-records-in-one-channel-send")
+			}
+			if !complete {
+				e2eExtra = append(e2eExtra, "e2e-message-missing")
+			} else if b.IdleMs > 0 {
+				stray = s.listen(time.Duration(b.IdleMs) * time.Millisecond)
+				e2eExtra = append(e2eExtra, fmt.Sprintf("e2e-idle-watch-%dms", b.IdleMs))
 			}
 		}
 	}
@@ -805,8 +977,30 @@ func runBatch(b Batch) lib.Result {
 			tags[p.e2eTag] = true
 		}
 	}
-	res.Term = lib.List(terms)
-	res.Impl = obs
+	strayTerms := make([]string, len(stray))
+	strayHex := []string{}
+	for i, m := range stray {
+		strayTerms[i] = frameList(m)
+		h := ""
+		for _, f := range m {
+			h += fmt.Sprintf("[%x]", f)
+		}
+		strayHex = append(strayHex, h)
+	}
+	res.Term = "mkc " + lib.List(terms) + " " + lib.List(strayTerms)
+	res.Impl = struct {
+		Records []obsv   `json:"records"`
+		Stray   []string `json:"messages_of_no_published_record"`
+	}{obs, strayHex}
+	if len(stray) > 0 {
+		tags["stray-message"] = true
+	}
+	for _, t := range e2eExtra {
+		tags[t] = true
+	}
+	if stressed {
+		tags["concurrent-encode-stress"] = true
+	}
 	if panicMsg != "" {
 		tags["panic"] = true
 	}
@@ -925,6 +1119,9 @@ func main() {
 		Header:   "From Dastard Require Import Common.ZX Common.CaseLib C14.Model C14.Run.",
 		Verdict:  "verdict",
 		PerShard: 25,
+		Isolate:  true, // chunks run in parallel child processes (the idle watch of one case overlaps the rest)
+		Chunk:    24,
+		Workers:  8,
 	}
 	h.Main()
 }
